@@ -46,6 +46,13 @@ def gen_reply(rng, n):
     r = rng.random()
     i = rng.randrange(max(1, n))
     j = rng.randrange(max(1, n))
+    if r < 0.04 and n > 10:
+        # bounds with a different number of digits (their order as text is not their order as numbers)
+        return '%d-%d' % (rng.randint(2, 9), rng.randint(10, n - 1))
+    if r < 0.07 and n >= 3:
+        a_ = rng.randrange(n - 1)
+        b_ = rng.randrange(a_ + 1, n)
+        return rng.choice(['%d-0%d' % (a_, b_), '%d-+%d' % (a_, b_), '0%d-%d' % (a_, b_), '%d - %d' % (a_, b_)])
     if r < 0.25:
         return str(i)
     if r < 0.40:
